@@ -160,6 +160,17 @@ ADDED['C13'] += ' push of the closed-blob tree counts slots, never occupied chil
 ADDED['C14'] += ' No shared atomic counter is raised before and lowered after a suspension point by plain statements of a client-cancellable body.'
 ADDED['C16'] += ' Meta::from_raw answers only with what the deserializer produced.'
 
+ADDED['C02'] += ' An unconditional delete of a blob always appends a marker; a write is acknowledged without an append only after the duplicate check.'
+ADDED['C04'] += ' The worker switches the active blob in one exclusive section; the allocation counter of a reloaded index is seeded from capacities.'
+ADDED['C15'] += ' The allocation counter of a reloaded index is seeded from the capacities of the per-key vectors.'
+ADDED['C13'] += ' The worker takes one request at a time; the allocation counter cannot underflow inside the worker.'
+ADDED['C12'] += ' Two worker notifications of one operation are never the alternatives of one branch.'
+ADDED['C16'] += ' A record header is built from scratch only where a new record is created; a buffering tools writer is flushed before success is reported.'
+ADDED['C10'] += ' A clone of a bloom filter keeps its off-loaded state; the filter of the closed-blob tree is read at self.root.'
+ADDED['C11'] += ' The recreate permission of the index parameters is the configured recreate_index_file.'
+ADDED['C03'] += ' Index regeneration pushes every scanned header.'
+ADDED['C17'] += ' The primitive types encoded / decoded directly with bincode are those of the pinned release (per module).'
+
 for _k, _v in ADDED.items():
     _t = CHECKS[_k]
     CHECKS[_k] = (_t[0] + _v, _t[1], _t[2])
